@@ -56,6 +56,7 @@ require (
 	github.com/ncruces/julianday v1.0.0 // indirect
 	github.com/orsinium-labs/enum v1.4.0 // indirect
 	github.com/pancsta/cview v1.5.23 // indirect
+	github.com/patrickmn/go-cache v2.1.0+incompatible // indirect
 	github.com/rivo/uniseg v0.4.7 // indirect
 	github.com/soheilhy/cmux v0.1.5 // indirect
 	github.com/spf13/cast v1.7.1 // indirect
@@ -88,3 +89,4 @@ require (
 )
 
 replace github.com/pancsta/asyncmachine-go => /repo
+replace github.com/patrickmn/go-cache => ./third_party/go-cache
